@@ -3,16 +3,16 @@
 package main
 
 import (
-	"github.com/google/inverting-proxy/agent/utils"
-	"os"
 	"bufio"
 	"context"
 	"encoding/json"
 	"fmt"
+	"github.com/google/inverting-proxy/agent/utils"
 	"io"
 	"net/http"
 	"net/http/httptest"
 	"net/http/httputil"
+	"os"
 	"strings"
 	"sync"
 	"sync/atomic"
@@ -25,16 +25,17 @@ import (
 
 type verifC05Case struct {
 	ID     string `json:"id"`
-	Chunks []int  `json:"chunks"`   // chunk sizes
-	Pause  int    `json:"pause_ms"` // pause of the backend between "observed" and the next chunk
-	HTML   bool   `json:"html"`     // text/html response (exercises the shim's body splice when enabled)
-	Config string `json:"config"`   // plain | shim | banner
-	CL     bool   `json:"content_length"` // the backend declares Content-Length and still writes the body in pieces
-	Proto  string `json:"proto"`          // protocol version on the request line of the forwarded request
-	Many   bool   `json:"many,omitempty"` // one of the responses that are all held open at the same time
-	Status int    `json:"status,omitempty"` // status of the backend's response (0 = 200)
-	Method string `json:"method,omitempty"` // method of the forwarded request ("" = GET)
+	Chunks []int  `json:"chunks"`                // chunk sizes
+	Pause  int    `json:"pause_ms"`              // pause of the backend between "observed" and the next chunk
+	HTML   bool   `json:"html"`                  // text/html response (exercises the shim's body splice when enabled)
+	Config string `json:"config"`                // plain | shim | banner
+	CL     bool   `json:"content_length"`        // the backend declares Content-Length and still writes the body in pieces
+	Proto  string `json:"proto"`                 // protocol version on the request line of the forwarded request
+	Many   bool   `json:"many,omitempty"`        // one of the responses that are all held open at the same time
+	Status int    `json:"status,omitempty"`      // status of the backend's response (0 = 200)
+	Method string `json:"method,omitempty"`      // method of the forwarded request ("" = GET)
 	Early  bool   `json:"early_hints,omitempty"` // the backend sends 103 Early Hints before its response
+	Trail  bool   `json:"announced_trailer,omitempty"` // the backend announces a trailer (Trailer: X-Sum) and sends it after the last chunk
 }
 
 const verifC05Many = 40
@@ -83,6 +84,10 @@ func TestVerifC05(t *testing.T) {
 				total += sz
 			}
 			w.Header().Set("Content-Length", fmt.Sprint(total))
+		}
+		if c.Trail {
+			w.Header().Set("Trailer", "X-Sum")
+			defer func() { w.Header().Set("X-Sum", "after-the-last-chunk") }()
 		}
 		if c.Early {
 			w.Header().Set("Link", "</style.css>; rel=preload")
@@ -287,6 +292,7 @@ func TestVerifC05(t *testing.T) {
 			// streamed responses to requests of every method (a POST that is answered with an event stream)
 			c.Method = []string{"", "POST", "", "PUT", "DELETE", "", "PATCH"}[(i+2)%7]
 			c.Early = i%4 == 3
+			c.Trail = i%5 == 2 && !c.CL
 			if config == "plain" || config == "h2c" {
 				// streamed responses of every status class (an event stream may well be an error page that keeps growing)
 				c.Status = []int{200, 200, 200, 500, 206, 503, 404}[i%7]
